@@ -164,8 +164,17 @@ fn check_classes(pattern: &str, regex_type: RegexType) -> Result<(), Box<dyn Err
                 // The members: a "]" first (after "^") is one of them.
                 let mut members = rest.strip_prefix('^').unwrap_or(rest);
                 // (a "-" first is a member too - unless that "]" stands before it)
-                let mut first_members = !members.starts_with(']');
+                let mut state = if members.starts_with(']') {
+                    RangeState::Start
+                } else {
+                    RangeState::NoStart
+                };
                 members = members.strip_prefix(']').unwrap_or(members);
+                let invalid_range_end = || -> Box<dyn Error> {
+                    From::from(format!(
+                        "Invalid range end in regular expression {pattern:?}"
+                    ))
+                };
                 loop {
                     let Some(i) = members.find(['[', ']']) else {
                         // (the engine may have found an end for it: it takes the
@@ -175,9 +184,11 @@ fn check_classes(pattern: &str, regex_type: RegexType) -> Result<(), Box<dyn Err
                         )));
                     };
                     if members.as_bytes()[i] == b']' {
+                        scan_members(&members[..i], state, true).ok_or_else(invalid_range_end)?;
                         rest = &members[i + 1..];
                         break;
                     }
+                    state = scan_members(&members[..i], state, false).ok_or_else(invalid_range_end)?;
                     let inner = &members[i + 1..];
                     members = match inner.chars().next() {
                         Some(':') if classes => {
@@ -196,6 +207,9 @@ fn check_classes(pattern: &str, regex_type: RegexType) -> Result<(), Box<dyn Err
                                     "Invalid character class name [:{name}:] in regular expression {pattern:?}"
                                 )));
                             }
+                            // (a class is no end point of a range; the engine
+                            // says so itself)
+                            state = RangeState::NoStart;
                             &inner[1 + end + 2..]
                         }
                         Some(delim @ ('.' | '=')) => match inner[1..].find(&format!("{delim}]")) {
@@ -206,15 +220,18 @@ fn check_classes(pattern: &str, regex_type: RegexType) -> Result<(), Box<dyn Err
                                 // neither behind a "-" that has a start before it
                                 // nor before one that has an end behind it.
                                 let after = &inner[1 + end + 2..];
-                                let before = &members[..i];
                                 if delim == '='
-                                    && (ends_in_open_range(before, !first_members)
+                                    && (state == RangeState::Open
                                         || after.starts_with('-') && !after.starts_with("-]"))
                                 {
-                                    return Err(From::from(format!(
-                                        "Invalid range end in regular expression {pattern:?}"
-                                    )));
+                                    return Err(invalid_range_end());
                                 }
+                                // (a collating symbol is a member like a character)
+                                state = match (delim, state) {
+                                    ('=', _) => RangeState::NoStart,
+                                    (_, RangeState::Open) => RangeState::Done,
+                                    _ => RangeState::Start,
+                                };
                                 after
                             }
                             Some(_) => {
@@ -228,9 +245,12 @@ fn check_classes(pattern: &str, regex_type: RegexType) -> Result<(), Box<dyn Err
                                 )))
                             }
                         },
-                        _ => inner,
+                        _ => {
+                            // (the "[" is a member itself)
+                            state = scan_members("[", state, false).ok_or_else(invalid_range_end)?;
+                            inner
+                        }
                     };
-                    first_members = false;
                 }
             }
             _ => {}
@@ -239,25 +259,40 @@ fn check_classes(pattern: &str, regex_type: RegexType) -> Result<(), Box<dyn Err
     Ok(())
 }
 
-/// Whether the plain members of a bracket expression end in a "-" that is
-/// waiting for the end point of its range ("a-", "--": not "-" alone, which is
-/// a member, nor "!--", where the second "-" is the end point).  `has_start`:
-/// something stands before them that a range can start from.
-fn ends_in_open_range(members: &str, has_start: bool) -> bool {
-    let mut has_start = has_start;
+/// Where a scan of the members of a bracket expression stands with respect to
+/// ranges.
+#[derive(Clone, Copy, PartialEq)]
+enum RangeState {
+    /// Nothing a range could start from (the beginning, a class).
+    NoStart,
+    /// A member a range could start from.
+    Start,
+    /// A "-" waiting for the end point of its range.
+    Open,
+    /// A range has just been completed: a "-" here can only be the last member.
+    Done,
+}
+
+/// The plain members `members` of a bracket expression, read from `state`;
+/// `last`: the closing "]" follows them (otherwise a class, a collating symbol
+/// or an equivalence class does).  None: a "-" behind a complete range that is
+/// not the last member ("[a-c-e]": an invalid range end).
+fn scan_members(members: &str, mut state: RangeState, last: bool) -> Option<RangeState> {
     let mut chars = members.chars().peekable();
     while let Some(member) = chars.next() {
-        if member == '-' && has_start {
-            // An operator: with its end point, or waiting for one.
-            if chars.next().is_none() {
-                return true;
+        state = match state {
+            RangeState::Open => RangeState::Done,
+            RangeState::Done if member == '-' => {
+                if chars.peek().is_some() || !last {
+                    return None;
+                }
+                RangeState::Start
             }
-            has_start = false;
-        } else {
-            has_start = true;
-        }
+            RangeState::Start if member == '-' => RangeState::Open,
+            _ => RangeState::Start,
+        };
     }
-    false
+    Some(state)
 }
 
 /// A back-reference to a group that is not complete where it stands - one that
